@@ -118,7 +118,7 @@ def check():
         f_declare = M.one(r"^env::<impl[^>]*>::declare$")
         f_open = M.one(r"^env::<impl[^>]*>::open$")
         f_close = M.one(r"^env::<impl[^>]*>::close$")
-        f_new = M.one(r"^env::<impl at oal-compiler/src/env\.rs:3[0-9][^>]*>::new$")
+        f_new = M.sel("env", "new", ret=r"^Env$")
         f_defvar = M.one(r"^(resolve::)?define_variable$")
         f_declvar = M.one(r"^(resolve::)?declare_variable$")
         f_declimp = M.one(r"^(resolve::)?declare_import$")
